@@ -71,9 +71,41 @@ func checkConstIndexes(p *Prog, r *Result, pkg *packages.Package, rel string, ru
 			subject := exprString(ix.X)
 			key := fmt.Sprintf("%s#%s[%s]", funcKey(rel, fd), subject, exprString(ix.Index))
 			if why, ok := exceptions[funcKey(rel, fd)+"#"+subject]; ok {
-				r.OK(rule, key, ix.Pos(), "exception: "+why)
-				r.Except(funcKey(rel, fd)+"#"+subject, why)
-				continue
+				// a conditional exception: the invariant only holds while a named flag is false, so the index must be
+				// reached only through the failing branch of that flag (`!flag && … x[0]`)
+				if rest, isCond := strings.CutPrefix(why, "only under `!"); isCond {
+					flag, _, _ := strings.Cut(rest, "`")
+					if g == nil {
+						g = NewFGraph(info, fd.Body, nil)
+					}
+					blk := blockContaining(g, ix)
+					under := blk != nil && underEdges(g, blk, func(e *FEdge) bool {
+						if e.Cond == nil || e.Pol || e.Tag != nil || e.TypeCase {
+							return false
+						}
+						id, ok := ast.Unparen(e.Cond).(*ast.Ident)
+						return ok && id.Name == flag
+					})
+					if under {
+						r.OK(rule, key, ix.Pos(), "exception: "+why)
+						r.Except(funcKey(rel, fd)+"#"+subject, why)
+						continue
+					}
+					// outside the flag's guard the exception does not apply: the index is judged like any other
+				} else if rest, isBuilt := strings.CutPrefix(why, "built non-empty `"); isBuilt {
+					// the belief "the parser never builds this empty" is proved at the construction sites
+					tf, _, _ := strings.Cut(rest, "`")
+					typ, field, _ := strings.Cut(tf, ".")
+					fail := builtNonEmpty(p, pkg, rel, typ, field)
+					r.Check(fail == "", rule, key, ix.Pos(), "exception: "+why+" — proved at the construction sites",
+						fmt.Sprintf("%s is indexed at a constant position on the belief that the parser never builds a %s with an empty %s, and that belief does not hold: %s", subject, typ, field, fail))
+					r.Except(funcKey(rel, fd)+"#"+subject, why)
+					continue
+				} else {
+					r.OK(rule, key, ix.Pos(), "exception: "+why)
+					r.Except(funcKey(rel, fd)+"#"+subject, why)
+					continue
+				}
 			}
 			if g == nil {
 				g = NewFGraph(info, fd.Body, nil)
@@ -200,4 +232,132 @@ func checkConstIndexes(p *Prog, r *Result, pkg *packages.Package, rel string, ru
 				fmt.Sprintf("%s is indexed at a fixed position and no path to this access tests its length: an empty or short value panics", subject))
 		}
 	}
+}
+
+// builtNonEmpty proves the belief behind an index exception of the form "T.F is never empty because the parser reports
+// an error otherwise": at every construction site `v := &T{…}` in the package, every path from the literal to the
+// function's return appends to v.F, or calls a function that always reports an error — except paths that have just
+// tested v.F to be non-empty (the failing branch of `len(v.F) == 0`). It returns "" when the proof goes through and
+// otherwise says which site fails.
+func builtNonEmpty(p *Prog, pkg *packages.Package, rel, typ, field string) string {
+	info := pkg.TypesInfo
+	t := lookupType(pkg, typ)
+	errPass := lookupFunc(pkg, "Parser.errPass")
+	if t == nil || errPass == nil {
+		return "type " + typ + " or Parser.errPass not found"
+	}
+	fgs := newFuncGraphs(pkg)
+	reporters := computeMustError(fgs, errPass)
+	sites := 0
+	for _, fd := range p.AllFuncDecls(rel) {
+		if fd.Body == nil || strings.HasSuffix(p.Position(fd.Pos()), "_test.go") {
+			continue
+		}
+		var lits []*ast.AssignStmt
+		inspectNoLit(fd.Body, func(n ast.Node) bool {
+			if as, ok := n.(*ast.AssignStmt); ok && len(as.Lhs) == 1 && len(as.Rhs) == 1 {
+				if lit := compositeOf(as.Rhs[0]); lit != nil && namedOf(info.TypeOf(lit)) == t {
+					lits = append(lits, as)
+				}
+			}
+			return true
+		})
+		nLits := 0
+		ast.Inspect(fd.Body, func(n ast.Node) bool {
+			if lit, ok := n.(*ast.CompositeLit); ok && namedOf(info.TypeOf(lit)) == t {
+				nLits++
+			}
+			return true
+		})
+		if nLits != len(lits) {
+			return fmt.Sprintf("%s builds a %s that is not bound to a local", funcKey(rel, fd), typ)
+		}
+		if len(lits) == 0 {
+			continue
+		}
+		g := NewFGraph(info, fd.Body, nil)
+		for _, as := range lits {
+			sites++
+			id, ok := as.Lhs[0].(*ast.Ident)
+			if !ok {
+				return fmt.Sprintf("%s binds the new %s to something other than a local", funcKey(rel, fd), typ)
+			}
+			obj := info.ObjectOf(id)
+			isField := func(e ast.Expr) bool {
+				se, ok := ast.Unparen(e).(*ast.SelectorExpr)
+				if !ok || se.Sel.Name != field {
+					return false
+				}
+				x, ok := ast.Unparen(se.X).(*ast.Ident)
+				return ok && info.ObjectOf(x) == obj
+			}
+			// the literal itself may set the field to a non-empty composite
+			if lit := compositeOf(as.Rhs[0]); lit != nil {
+				filled := false
+				for _, el := range lit.Elts {
+					if kv, ok := el.(*ast.KeyValueExpr); ok {
+						if k, ok := kv.Key.(*ast.Ident); ok && k.Name == field {
+							if cl, ok := ast.Unparen(kv.Value).(*ast.CompositeLit); ok && len(cl.Elts) > 0 {
+								filled = true
+							}
+						}
+					}
+				}
+				if filled {
+					continue
+				}
+			}
+			hit := func(n ast.Node) bool {
+				found := false
+				inspectNoLit(n, func(m ast.Node) bool {
+					switch x := m.(type) {
+					case *ast.AssignStmt:
+						for i, l := range x.Lhs {
+							if isField(l) && i < len(x.Rhs) {
+								if c, ok := ast.Unparen(x.Rhs[i]).(*ast.CallExpr); ok && isBuiltinCall(info, c, "append") && len(c.Args) > 1 {
+									found = true
+								}
+							}
+						}
+					case *ast.CallExpr:
+						if callee := calleeOf(info, x); callee != nil && reporters[callee.Origin()] {
+							found = true
+						}
+					}
+					return true
+				})
+				return found
+			}
+			skip := func(e *FEdge) bool {
+				if e.Cond == nil || e.Tag != nil || e.TypeCase {
+					return false
+				}
+				be, ok := ast.Unparen(e.Cond).(*ast.BinaryExpr)
+				if !ok {
+					return false
+				}
+				c, ok := ast.Unparen(be.X).(*ast.CallExpr)
+				if !ok || !isBuiltinCall(info, c, "len") || len(c.Args) != 1 || !isField(c.Args[0]) {
+					return false
+				}
+				tv, has := info.Types[be.Y]
+				if !has || tv.Value == nil || tv.Value.ExactString() != "0" {
+					return false
+				}
+				// edges on which the field is known to be non-empty
+				return (be.Op == token.EQL && !e.Pol) || (be.Op == token.NEQ && e.Pol) || (be.Op == token.GTR && e.Pol)
+			}
+			b, idx := g.BlockOf(as)
+			if b == nil {
+				return fmt.Sprintf("the %s literal in %s was not found in the flow graph", typ, funcKey(rel, fd))
+			}
+			if ok, _ := g.MustPass(b, idx, g.Exit, hit, skip); !ok {
+				return fmt.Sprintf("%s can return a %s whose %s is empty without having reported an error (%s)", funcKey(rel, fd), typ, field, p.Position(as.Pos()))
+			}
+		}
+	}
+	if sites == 0 {
+		return "no construction site of " + typ + " found"
+	}
+	return ""
 }
